@@ -171,6 +171,20 @@ CHECKS = {
             "trajectory-level translate_rotate cannot reach the caches of the containing network / prediction); lookups are not "
             "compared while the caller has deferred the index with rtree=False",
             "DESIGN.md §4 C11"),
+    "C02": ("deviation-bounded exhaustive enumeration (CHESS-style bound transplanted to inputs): all scenario specs within k "
+            "deviations of a rich base scenario, each built into real objects, written by the real protobuf writer, read by the "
+            "real reader and compared as public snapshots (bit-identical reals)",
+            "Menu of ~1000 deviations generated from every library enum member present in the shipped protobuf descriptors "
+            "(line markings, lanelet types, road users, obstacle types per role, light colours/directions, tags, environment, "
+            "every traffic-sign id of every country enum), optional elements on/off, shape kinds at every shape position, "
+            "uncertain regions, state classes (KS, ST, MB, ExtendedPM, PM, Custom), interval-valued attributes, all 15 subsets "
+            "of unset initial-state attributes, goal variants incl. lanelet goals for some goal states, default-argument "
+            "obstacles, a 9-letter real alphabet on 11 quantities. quick: k<=1 complete + 1/16 of all pairs; thorough: k<=2 "
+            "complete (~480k round trips). Every 8th k<=1 spec is also written twice by the same writer.",
+            "trusted: mc/snap.py (public accessors), mc/spec.py builders; expected content = snapshot before writing. "
+            "Conventions applied to both sides: unset initial-state attributes read back as 0, signal_series None == [], "
+            "stop-line refs None == empty, lanelet assignments not file content",
+            "DESIGN.md §4 C02"),
 }
 
 NOT_YET = {}
